@@ -317,7 +317,7 @@ def main():
         "notes": "Exit codes: 0 held / KNOWN-FINDING only, 1 VIOLATION, 2 tool error. known_findings.json lists recorded and fixed defects. "
                  "Specification growth beyond the listed properties is hosted by some checks (design-level TLC runs plus conformance of the real "
                  "code, reported as MODEL-DRIFT lines and growth_* evidence keys, never as VIOLATION): C01 wire protocol; C03 composition root "
-                 "SaorsaCore.tla; C04 production resource manager; C09 identity regeneration trigger; C13 bootstrap contact bookkeeping; "
+                 "SaorsaCore.tla; C04 production resource manager; C05 cache eviction strategies; C08 threshold group membership; C09 identity regeneration trigger; C13 bootstrap contact bookkeeping and Sybil detector; "
                  "C15 bucket refresh / attack mode; C17 node age verification; C18 upgrade staging and rollback; C20 transport peer "
                  "bookkeeping and maintenance scheduler. See DESIGN.md sections 12.7 and 13.3.",
     }
